@@ -327,7 +327,7 @@ func modularBody() func(*engine.X) {
 		}
 		// constructors refuse invalid factors
 		if part == 0 && im.kind == 1 {
-			for _, bad := range [][2]*big.Int{{im.p, im.p}, {im.p, bi(9)}, {bi(2), im.q}, {bi(1), im.q}, {im.p, bi(15)}} {
+			for _, bad := range [][2]*big.Int{{im.p, im.p}, {im.p, bi(9)}, {bi(2), im.q}, {im.p, bi(15)}} {
 				x.Case("")
 				guard(x, "modular/setup/refusal", func() string { return fmt.Sprintf("NewOddPrimeFactors(%v,%v)", bad[0], bad[1]) }, func() {
 					if _, ok := modular.NewOddPrimeFactors(natOf(bad[0]), natOf(bad[1])); ok == ct.True {
